@@ -413,4 +413,133 @@ theorem RInv.switchMerge {root sp} (h : RInv root sp) (otherLog : List (List Nat
       · exact hts y (hok.tip ▸ e)
       · exact h.inv2.workSeen y e
 
+/-! ### stash push and pop as separate operations -/
+
+/-- what a push made when HEAD was `hd` saved: the AI lines of the stashed content -/
+def StashEntryOK (g : Nat → Author) (seen hd : List Nat) (e : List Nat × List (Nat × Nat)) : Prop :=
+  e.2 = claimsFrom 1 e.1 (fun y => if y ∈ hd then none else g y) ∧ e.1.Nodup ∧ ∀ y ∈ e.1, y ∈ seen
+
+theorem StashEntryOK.mono {g g' : Nat → Author} {seen seen' hd : List Nat} {e : List Nat × List (Nat × Nat)}
+    (h : StashEntryOK g seen hd e) (hg : ∀ y ∈ seen, g' y = g y ∧ y ∈ seen') : StashEntryOK g' seen' hd e := by
+  obtain ⟨h1, h2, h3⟩ := h
+  refine ⟨?_, h2, fun y hy => (hg y (h3 y hy)).2⟩
+  rw [h1]
+  apply claimsFrom_congr
+  intro y hy
+  rw [(hg y (h3 y hy)).1]
+
+/-- `git stash`: the working tree goes back to HEAD, the working log's entries stay, the AI lines of
+    the stashed content are saved -/
+theorem RInv.stashPush {root sp} (h : RInv root sp) (stk : List (List Nat × List (Nat × Nat))) :
+    RInv root ⟨(stashPush ⟨sp.st, stk⟩).st, sp.g, sp.seen⟩ ∧
+    ∃ saved, (stashPush ⟨sp.st, stk⟩).stash = (sp.st.work, saved) :: stk ∧
+      StashEntryOK sp.g sp.seen sp.st.head (sp.st.work, saved) := by
+  obtain ⟨hwC, hhC, _, hxC, hnC⟩ := checkpoint_fields sp.st none
+  have hlC := checkpoint_log sp.st none
+  have hC := h.checkpointed
+  have hA := wlAuthor_spec _ hC.inv2
+  have hheadnd : sp.st.head.Nodup := by rw [h.head]; exact h.hist.tip_nodup h.rootNodup
+  constructor
+  · simp only [GitAi.Sys.stashPush]
+    refine ⟨⟨?_, ?_, ?_, ?_, ?_⟩, ?_, ?_, h.rootHuman, h.rootSeen, h.rootNodup, ?_⟩
+    · show (checkpoint sp.st none).head.Nodup
+      rw [hhC]; exact hheadnd
+    · show ∀ y ∈ (checkpoint sp.st none).head, y ∈ sp.seen
+      exact hC.inv2.headSeen
+    · exact hC.inv2.headSeen
+    · exact hC.inv2.snapSeen
+    · have hl := hC.inv2.latest
+      show match (checkpoint sp.st none).entries.getLast? with
+        | some e => e.attr = e.snap.map (target _) ∧ ∀ y ∈ (checkpoint sp.st none).head, y ∉ e.snap → target _ y = none
+        | none => PendingOK _
+      cases he : (checkpoint sp.st none).entries.getLast? with
+      | some e =>
+        rw [he] at hl
+        simp only at hl ⊢
+        refine ⟨hl.1, ?_⟩
+        intro y hy _
+        have hy' : y ∈ (checkpoint sp.st none).head := hy
+        simp [target, hy']
+      | none =>
+        simp only
+        left
+        refine ⟨rfl, ?_⟩
+        intro y hy
+        have hy' : y ∈ (checkpoint sp.st none).head := hy
+        simp [target, hy']
+    · exact hC.hist
+    · exact hC.head
+    · exact hC.logSeen
+  · refine ⟨(enum1 (checkpoint sp.st none).work).filterMap
+        (fun p => (wlAuthor (checkpoint sp.st none) p.2).map (fun s => (p.1, s))), ?_, ?_, h.inv2.nodup, h.inv2.workSeen⟩
+    · simp only [GitAi.Sys.stashPush]
+      rw [hwC]
+    · show List.filterMap _ (enum1 (checkpoint sp.st none).work) = claimsFrom 1 sp.st.work _
+      rw [hwC]
+      unfold claimsFrom enum1
+      apply filterMap_congr_mem
+      intro a ha
+      have hy : a.2 ∈ sp.st.work := (mem_enumFrom' 1 _ a.1 a.2 ha).1
+      rw [hA]
+      simp only [hwC, hy, if_true, target, hhC]
+
+/-- what `git stash pop` needs: git's merge result `ys` has distinct known lines, and every line of it
+    that does not come from what the next checkpoint will diff against (the latest snapshot, or the
+    stashed content) is a HEAD line or a person's; when the stashed content is what will be diffed
+    against, its lines are in HEAD now exactly when they were at push time. -/
+def popRest (sp : Spec) (hd snap ys : List Nat) : Option Entry → Prop
+  | some e => ∀ y ∈ ys, y ∉ e.snap → target sp y = none
+  | none => (∀ y ∈ snap, (y ∈ hd ↔ y ∈ sp.st.head)) ∧ ∀ y ∈ ys, y ∉ snap → target sp y = none
+
+instance (sp : Spec) (hd snap ys : List Nat) (o : Option Entry) : Decidable (popRest sp hd snap ys o) := by
+  cases o <;> (unfold popRest; exact inferInstance)
+
+structure StashPopOK (sp : Spec) (hd snap ys : List Nat) : Prop where
+  nodup : ys.Nodup
+  seen : ∀ y ∈ ys, y ∈ sp.seen
+  rest : popRest sp hd snap ys sp.st.entries.getLast?
+
+theorem RInv.stashPop {root sp} (h : RInv root sp) (hd snap : List Nat) (saved : List (Nat × Nat))
+    (rest : List (List Nat × List (Nat × Nat))) (ys : List Nat)
+    (he : StashEntryOK sp.g sp.seen hd (snap, saved)) (hok : StashPopOK sp hd snap ys) :
+    RInv root ⟨(stashPop ys ⟨sp.st, (snap, saved) :: rest⟩).st, sp.g, sp.seen⟩ := by
+  obtain ⟨hs1, hs2, hs3⟩ := he
+  simp only [GitAi.Sys.stashPop]
+  refine ⟨⟨hok.nodup, hok.seen, h.inv2.headSeen, h.inv2.snapSeen, ?_⟩, h.hist, h.head, h.rootHuman, h.rootSeen,
+    h.rootNodup, h.logSeen⟩
+  have hl := h.inv2.latest
+  have hr := hok.rest
+  show match sp.st.entries.getLast? with
+    | some e => e.attr = e.snap.map (target _) ∧ ∀ y ∈ ys, y ∉ e.snap → target _ y = none
+    | none => PendingOK _
+  cases hee : sp.st.entries.getLast? with
+  | some e =>
+    rw [hee] at hl hr
+    simp only [popRest] at hl hr ⊢
+    exact ⟨hl.1, hr⟩
+  | none =>
+    rw [hee] at hr
+    simp only [popRest] at hr ⊢
+    obtain ⟨hiff, hrest⟩ := hr
+    have hF : ∀ y ∈ snap, (if y ∈ hd then none else sp.g y) = target sp y := by
+      intro y hy
+      by_cases hh : y ∈ hd
+      · have : y ∈ sp.st.head := (hiff y hy).1 hh
+        simp [hh, target, this]
+      · have : y ∉ sp.st.head := fun hx => hh ((hiff y hy).2 hx)
+        simp [hh, target, this]
+    have hsaved : saved = claimsFrom 1 snap (target sp) := by
+      show (snap, saved).2 = _
+      rw [hs1]
+      exact claimsFrom_congr 1 snap _ _ hF
+    by_cases hnil : saved = []
+    · left
+      refine ⟨hnil, ?_⟩
+      intro y hy
+      by_cases hin : y ∈ snap
+      · exact claimsFrom_nil_target snap (target sp) (by rw [← hsaved]; exact hnil) y hin
+      · exact hrest y hy hin
+    · right
+      exact ⟨hnil, hsaved, hs2, hs3, hrest⟩
+
 end GitAi.Sys
